@@ -197,6 +197,24 @@ theorem Grows.taskCall {a b : St} (h : Grows a b) (counts : List ((Str × Json) 
     Grows a (b.taskCall counts res p (taskEv m r to) tEnd) :=
   h.trans (grows_taskCall _ _ _ _ _ _ (taskEv_plain m r to).1 (taskEv_plain m r to).2.1 (taskEv_plain m r to).2.2)
 
+/-- the frame state (`St.fs`) is no part of the history -/
+theorem grows_fr (st : St) (f : FS → FS) : Grows st (st.fr f) := grows_same _ _ rfl rfl rfl Rat.le_refl
+theorem Grows.fr {a b : St} (h : Grows a b) (f : FS → FS) : Grows a (b.fr f) := h.trans (grows_fr _ _)
+theorem Grows.handover {a b : St} (h : Grows a b) (n : Str) : Grows a (b.handover n) := h.fr _
+theorem Grows.closeKeep {a b : St} (h : Grows a b) : Grows a b.closeKeep := h.fr _
+theorem Grows.request {a b : St} (h : Grows a b) (t : Bool) : Grows a (b.request t) := h.fr _
+theorem Grows.pushLevel {a b : St} (h : Grows a b) (mc : Nat) : Grows a (b.pushLevel mc) := h.fr _
+theorem Grows.visit {a b : St} (h : Grows a b) (ty : Str) : Grows a (b.visit ty) := h.fr _
+theorem Grows.failTok {a b : St} (h : Grows a b) : Grows a b.failTok := h.fr _
+theorem Grows.launch {a b : St} (h : Grows a b) (ns : List Str) : Grows a (b.launch ns) := h.fr _
+theorem Grows.startBranch {a b : St} (h : Grows a b) : Grows a b.startBranch := h.fr _
+theorem Grows.endBranch {a b : St} (h : Grows a b) (f : Bool) : Grows a (b.endBranch f) := h.fr _
+theorem Grows.join {a b : St} (h : Grows a b) (f : Bool) : Grows a (b.join f) := h.fr _
+theorem Grows.batch {a b : St} (h : Grows a b) (n : Str) (ns : List Str) : Grows a (b.batch n ns) := h.fr _
+theorem Grows.after {a b : St} (h : Grows a b) (d : Rat) : Grows a (b.after d) := h.trans (grows_waitUntil _ _)
+theorem Grows.retryAfter {a b : St} (h : Grows a b) (n : Str) (d : Rat) : Grows a (b.retryAfter n d) :=
+  ((h.handover n).closeKeep).after d
+
 theorem Grows.fanFail {a b : St} (h : Grows a b) : Grows a { b with fanFail := true } :=
   h.trans (grows_same _ _ rfl rfl rfl Rat.le_refl)
 theorem Grows.multiFail {a b : St} (h : Grows a b) : Grows a { b with multiFail := true } :=
@@ -274,6 +292,16 @@ local macro "grow_step" : tactic => `(tactic|
     | apply Grows.taskCall
     | apply Grows.fanFail
     | apply Grows.multiFail
+    | apply Grows.handover
+    | apply Grows.closeKeep
+    | apply Grows.request
+    | apply Grows.pushLevel
+    | apply Grows.visit
+    | apply Grows.failTok
+    | apply Grows.launch
+    | apply Grows.join
+    | apply Grows.retryAfter
+    | apply Grows.after
     | (apply Grows.push (hn := rfl) (hx := rfl) (hr := rfl))))
 
 theorem grows_runFrom_step (states : Json) (name : Str) (data ctx : Json) (r : Nat) (st : St) :
@@ -319,10 +347,35 @@ theorem grows_runState_step (states : Json) (name : Str) (state data ctx : Json)
   · simp only [if_pos h6]; grow_step
   simp only [if_neg h6]
   by_cases h7 : stateType state = S "Parallel"
-  · simp only [if_pos h7]; grow_step
+  · simp only [if_pos h7]
+    split
+    · grow_step
+    · split
+      · grow_step
+      · apply GrowsAll.thenJoin env n ih
+        apply Grows.join
+        apply GrowsAll.thenBranches env n ih
+        apply Grows.launch
+        apply Grows.pushLevel
+        apply Grows.push (hn := rfl) (hx := rfl) (hr := rfl)
+        apply Grows.closeKeep
+        exact Grows.refl _
   simp only [if_neg h7]
   by_cases h8 : stateType state = S "Map"
-  · simp only [if_pos h8]; grow_step
+  · simp only [if_pos h8]
+    split
+    · grow_step
+    · split
+      · grow_step
+      · apply GrowsAll.thenJoin env n ih
+        apply Grows.join
+        apply GrowsAll.thenItems env n ih
+        apply Grows.launch
+        apply Grows.pushLevel
+        repeat' split
+        all_goals first
+          | (apply Grows.closeKeep; exact Grows.refl _)
+          | (apply Grows.push (hn := rfl) (hx := rfl) (hr := rfl); apply Grows.closeKeep; exact Grows.refl _)
   simp only [if_neg h8]
   exact Grows.refl _
 
@@ -334,17 +387,18 @@ theorem grows_runBranches_step (bs : List Json) (params ctx : Json) (st : St) :
     simp only [runBranches]
     split
     · rename_i start states hs hst
-      have g1 := ih.runFrom states start params ctx 0 st
-      cases hr : runFrom env n states start params ctx 0 st with
+      have g1 := (grows_fr st FS.startBranch).trans (ih.runFrom states start params ctx 0 st.startBranch)
+      cases hr : runFrom env n states start params ctx 0 st.startBranch with
       | mk r1 s1 =>
         rw [hr] at g1
-        have g1' : Grows st (s1.at st.clock) := g1.at _ Rat.le_refl
-        have g2 := ih.runBranches bs params ctx (s1.at st.clock)
-        cases hrest : runBranches env n bs params ctx (s1.at st.clock) with
+        have g1e : Grows st (s1.endBranch (isFailed r1)) := g1.endBranch _
+        have g1' : Grows st ((s1.endBranch (isFailed r1)).at st.clock) := g1e.at _ Rat.le_refl
+        have g2 := ih.runBranches bs params ctx ((s1.endBranch (isFailed r1)).at st.clock)
+        cases hrest : runBranches env n bs params ctx ((s1.endBranch (isFailed r1)).at st.clock) with
         | mk rest s2 =>
           rw [hrest] at g2
           have g := g1'.trans g2
-          exact g.combine _ _ _ _ g1.clock_le (Rat.le_trans g1.clock_le (le_rmax_left _ _))
+          exact g.combine _ _ _ _ g1e.clock_le (Rat.le_trans g1e.clock_le (le_rmax_left _ _))
     · exact Grows.refl _
 
 theorem grows_runItems_step (proc : Json) (sel : Option Json) (input : Json) (items : List Json) (i mc : Nat)
@@ -354,27 +408,32 @@ theorem grows_runItems_step (proc : Json) (sel : Option Json) (input : Json) (it
   | nil => simp only [runItems]; exact grows_waitUntil _ _
   | cons item items =>
     simp only [runItems]
-    have g00 : Grows st (if mc ≠ 0 ∧ i ≠ 0 ∧ i % mc = 0 then st.waitUntil be else st) := by
+    have g00 : Grows st (if mc ≠ 0 ∧ i ≠ 0 ∧ i % mc = 0 then
+        (st.waitUntil be).batch (ctxStateName ctx) (List.replicate (min mc (items.length + 1)) ((fldStr proc "StartAt").getD []))
+      else st) := by
       split
-      · exact grows_waitUntil _ _
+      · exact (grows_waitUntil _ _).batch _ _
       · exact Grows.refl _
-    generalize (if mc ≠ 0 ∧ i ≠ 0 ∧ i % mc = 0 then st.waitUntil be else st) = st0 at g00 ⊢
+    generalize (if mc ≠ 0 ∧ i ≠ 0 ∧ i % mc = 0 then
+        (st.waitUntil be).batch (ctxStateName ctx) (List.replicate (min mc (items.length + 1)) ((fldStr proc "StartAt").getD []))
+      else st) = st0 at g00 ⊢
     split
     · exact g00.trans (grows_same _ _ rfl rfl rfl Rat.le_refl)
     · rename_i params hp
       split
       · rename_i start states hs hst
-        have g0 : Grows st0 (st0.push (.iterStarted (ctxStateName ctx) i)) := (Grows.refl _).push _ rfl rfl rfl
-        have g1 := g0.trans (ih.runFrom states start params ctx 0 (st0.push (.iterStarted (ctxStateName ctx) i)))
-        cases hr : runFrom env n states start params ctx 0 (st0.push (.iterStarted (ctxStateName ctx) i)) with
+        have g0 : Grows st0 ((st0.push (.iterStarted (ctxStateName ctx) i)).startBranch) :=
+          ((Grows.refl _).push _ rfl rfl rfl).startBranch
+        have g1 := g0.trans (ih.runFrom states start params ctx 0 ((st0.push (.iterStarted (ctxStateName ctx) i)).startBranch))
+        cases hr : runFrom env n states start params ctx 0 ((st0.push (.iterStarted (ctxStateName ctx) i)).startBranch) with
         | mk r1 s1 =>
           rw [hr] at g1
-          have g1' : Grows st0 ((s1.iterEnd (ctxStateName ctx) i r1).at st0.clock) :=
-            (g1.iterEnd (ctxStateName ctx) i r1).at _ Rat.le_refl
+          have g1' : Grows st0 (((s1.iterEnd (ctxStateName ctx) i r1).endBranch (isFailed r1)).at st0.clock) :=
+            ((g1.iterEnd (ctxStateName ctx) i r1).endBranch _).at _ Rat.le_refl
           have g2 := ih.runItems proc sel input items (i + 1) mc (rmax be s1.clock) ctx
-            ((s1.iterEnd (ctxStateName ctx) i r1).at st0.clock)
+            (((s1.iterEnd (ctxStateName ctx) i r1).endBranch (isFailed r1)).at st0.clock)
           cases hrest : runItems env n proc sel input items (i + 1) mc (rmax be s1.clock) ctx
-              ((s1.iterEnd (ctxStateName ctx) i r1).at st0.clock) with
+              (((s1.iterEnd (ctxStateName ctx) i r1).endBranch (isFailed r1)).at st0.clock) with
           | mk rest s2 =>
             rw [hrest] at g2
             have g := g1'.trans g2
